@@ -721,7 +721,10 @@ class UnionUnmarshaller(AbstractUnmarshaller[UnionT], tp.Generic[UnionT]):
         super().__init__(t, context, var=var)
         self.stack = inspection.args(t, evaluate=True)
         if inspection.isoptionaltype(t):
-            self.stack = (self.stack[-1], *self.stack[:-1])
+            # `None` may be declared at any position, it is always checked first.
+            nulls = (*(a for a in self.stack if a is None or a is types.NoneType),)
+            rest = (*(a for a in self.stack if a not in nulls),)
+            self.stack = (*nulls, *rest)
 
         self.ordered_routines = [self.context[typ] for typ in self.stack]
 
@@ -735,9 +738,8 @@ class UnionUnmarshaller(AbstractUnmarshaller[UnionT], tp.Generic[UnionT]):
             ValueError: If `val` cannot be unmarshalled into any member type.
         """
         for routine in self.ordered_routines:
-            with contextlib.suppress(
-                ValueError, TypeError, SyntaxError, AttributeError
-            ):
+            # A member may reject the input with any error, e.g. `decimal.InvalidOperation`.
+            with contextlib.suppress(Exception):
                 unmarshalled = routine(val)
                 return unmarshalled
 
